@@ -66,7 +66,7 @@ register('C15', [
     'Arc::drop_slow stubbed to a no-op (payload leaked) - drop glue is not the subject',
 ], [
     'rosomaxa::utils::{fold_reduce, cartesian_product} are taken at their documented contract (contiguous groups folded from identity, results reduced from identity; all pairs): rayon and these two wrappers are not executed',
-    'evaluate_and_collect_all / parallel_collect (per-job or per-route collection, no reducer)',
+    'parallel_collect is taken at its contract (results of the map in source order); a structural deviation of evaluate_and_collect_all (missing pair, wrong number of entries) has no native replay and is reported as inconclusive',
     'noise/blink/farthest selectors (randomised by design)',
     'validity of full solver runs under Parallelism::new(p,t)',
 ])
